@@ -15,7 +15,8 @@ def check(reg, tier):
     kernel_c.kernel_contracts(reg, PROP, tier)
     from contracts import details_rt, details_sym
     details_sym.make_details_contract(reg, PROP, tier)
+    details_sym.make_kernel_args_contract(reg, PROP, tier)
     details_rt.run(reg, PROP)
-    reg.extra["bounded_note"] = ("make_details: proved symbolically (contracts/details_sym.py); make_kernel_args: bounded run-time contract over every "
+    reg.extra["bounded_note"] = ("make_details and make_kernel_args (1..3 non-magnetic parameters): proved symbolically (contracts/details_sym.py); additionally a bounded run-time contract over every "
                                  "(builtin model, dispersible parameter) x {several, single, empty} mesh; "
                                  "never counted as proved")
